@@ -62,6 +62,9 @@ type c19Msg struct {
 type c19Case struct {
 	TimeoutHalfUnits int      `json:"timeout_half_units"` // timeout = n * unit/2 (odd: deadline falls between message instants)
 	Msgs             []c19Msg `json:"msgs"`
+	// the first extension callback takes this long (the caller's callbacks may be slow: the
+	// announced duration still counts from the arrival of the pre-response)
+	CbSleepUnits int `json:"callback_sleep_units,omitempty"`
 }
 
 // scriptConn is a connection that plays a schedule into the inbox channel.
@@ -274,6 +277,13 @@ func c19Scripted(c *core.Ctx, p c19Params) {
 	for i := range cases {
 		cases[i] = c19RandCase(r)
 	}
+	// slow extension callbacks (shorter than the announced duration, no message while they run)
+	okResp := `{"result":{"late":true}}`
+	cases = append(cases,
+		c19Case{TimeoutHalfUnits: 5, CbSleepUnits: 2, Msgs: []c19Msg{{At: 1, Kind: "pre-timeout", Payload: `timeout:"160"`, ExtMS: 160}, {At: 6, Kind: "response-result", Payload: okResp}}},
+		c19Case{TimeoutHalfUnits: 5, CbSleepUnits: 1, Msgs: []c19Msg{{At: 1, Kind: "pre-timeout", Payload: `timeout:"100"`, ExtMS: 100}, {At: 3, Kind: "pre-timeout", Payload: `timeout:"100"`, ExtMS: 100}, {At: 6, Kind: "response-result", Payload: okResp}}},
+		c19Case{TimeoutHalfUnits: 5, CbSleepUnits: 2, Msgs: []c19Msg{{At: 1, Kind: "pre-timeout", Payload: `timeout:"160"`, ExtMS: 160}, {At: 4, Kind: "response-result", Payload: okResp}}},
+	)
 	var wg sync.WaitGroup
 	sem := make(chan struct{}, 4)
 	for i := range cases {
@@ -314,6 +324,9 @@ func c19One(c *core.Ctx, cs c19Case, sample bool) {
 	}()
 	// the caller passes no, one or two extension callbacks: the deadline is restarted all the same
 	ncb := (len(cs.Msgs) + cs.TimeoutHalfUnits) % 3
+	if cs.CbSleepUnits > 0 && ncb == 0 {
+		ncb = 1
+	}
 	var exts2 []int
 	var cbs []func(time.Duration)
 	if ncb >= 1 {
@@ -321,6 +334,9 @@ func c19One(c *core.Ctx, cs c19Case, sample bool) {
 			emu.Lock()
 			exts = append(exts, int(d/time.Millisecond))
 			emu.Unlock()
+			if cs.CbSleepUnits > 0 {
+				time.Sleep(time.Duration(cs.CbSleepUnits) * c19Unit)
+			}
 		})
 	}
 	if ncb == 2 {
